@@ -392,6 +392,38 @@ def _later_in_enclosing(fnode, st, c):
     return False
 
 
+def _lazy_caches(em):
+    """attributes filled on demand: some method contains
+    `if self.<attr> is None: self.<attr> = <expression over self.*>` -> {attr: (method, if, value)}"""
+    out = {}
+    for mname, m in em.methods.items():
+        for n in ast.walk(m.node):
+            if isinstance(n, ast.If) and isinstance(n.test, ast.Compare) and \
+                    len(n.test.ops) == 1 and isinstance(n.test.ops[0], ast.Is) and \
+                    isinstance(n.test.comparators[0], ast.Constant) and \
+                    n.test.comparators[0].value is None and \
+                    isinstance(n.test.left, ast.Attribute) and \
+                    norm_text(n.test.left.value) == 'self' and len(n.body) == 1 and \
+                    isinstance(n.body[0], ast.Assign) and \
+                    norm_text(n.body[0].targets[0]) == norm_text(n.test.left) and not n.orelse:
+                out[n.test.left.attr] = (mname, n, n.body[0].value)
+    return out
+
+
+def _followed_by(fnode, st, pred):
+    """is `st` followed, in its own block or in an enclosing one, by a statement satisfying
+    pred - i.e. on every path from st to the end of the function?"""
+    from ..flow import path_to
+    p = path_to(fnode.body, st)
+    if not p:
+        return False
+    for block, idx in reversed(p):
+        for later in block[idx + 1:]:
+            if pred(later):
+                return True
+    return False
+
+
 def sm_accum(ctx):
     ctx.rule('SM-ACCUM', 'update_estimates: every write is += of the zipped state element')
     ctx.rule('SM-ATTRS', 'reset_estimates re-initialises every attribute that update_estimates '
@@ -419,6 +451,14 @@ def sm_accum(ctx):
         mutated.add(norm_text(base).replace('self.', ''))
         ok = isinstance(w, ast.AugAssign) and isinstance(w.op, ast.Add) and \
             norm_text(w.value) == xi
+        if not ok and isinstance(w, ast.Assign) and isinstance(tgt, ast.Attribute) and \
+                isinstance(w.value, ast.Constant) and w.value.value is None and \
+                tgt.attr in _lazy_caches(em):
+            # invalidation of an attribute that is recomputed on demand (its consistency with
+            # the estimates is SM-SIGN's obligation, its reset SM-ATTRS')
+            ctx.ob('SM-ACCUM', True, None, '`%s` invalidates a cache that is filled on demand'
+                   % norm_text(w)[:70], f=up, node=w, key='cache-inval-' + tgt.attr)
+            continue
         if not ok and isinstance(w, ast.Assign) and isinstance(tgt, ast.Attribute):
             # a derived cache: a pure function of the model's own attributes, independent of
             # the update vector (it must then be covered by reset_estimates: SM-ATTRS)
@@ -844,12 +884,14 @@ def _sm_correct(ctx, em, ci):
     def is_ident(v):
         return isinstance(v, ast.Call) and (em.module.resolve(v.func) or '') in (
             'numpy.identity', 'numpy.eye')
+    lazy = _lazy_caches(em)
     for attr, ws in writers.items():
         if not any(isinstance(st.value, ast.Call) and (em.module.resolve(st.value.func) or '')
                    in ('numpy.linalg.inv', 'scipy.linalg.inv') and st.value.args and
                    norm_text(st.value.args[0]) == 'self.transform' for _, _, st in ws):
             continue
         bad = None
+        is_lazy = attr in lazy
         for mname, m, st in ws:
             v = st.value
             inv_ok = isinstance(v, ast.Call) and (em.module.resolve(v.func) or '') in (
@@ -858,16 +900,41 @@ def _sm_correct(ctx, em, ci):
             id_ok = is_ident(v) and any(
                 isinstance(s2, ast.Assign) and norm_text(s2.targets[0]) == 'self.transform' and
                 is_ident(s2.value) for s2 in ast.walk(m.node))
-            if not (inv_ok or id_ok):
+            none_ok = is_lazy and isinstance(v, ast.Constant) and v.value is None
+            if not (inv_ok or id_ok or none_ok):
                 bad = 'it is set to `%s` in %s' % (norm_text(v)[:40], mname)
-        # every method that writes self.transform (whole or element) also refreshes the cache
+        # every write of self.transform (whole or element) is followed, on the way out of the
+        # method, by a refresh (or, for a cache filled on demand, an invalidation) of the cache
+        is_store = lambda x: isinstance(x, ast.Assign) and \
+            norm_text(x.targets[0]) == 'self.' + attr
         for mname, m in em.methods.items():
-            touches = any(isinstance(n, (ast.Assign, ast.AugAssign)) and 'self.transform' in
-                          norm_text(n.targets[0] if isinstance(n, ast.Assign) else n.target)
-                          for n in ast.walk(m.node))
-            refreshes = any(mn == mname for mn, _, _ in ws)
-            if touches and not refreshes and bad is None:
-                bad = '%s changes self.transform without refreshing it' % mname
+            for n in ast.walk(m.node):
+                if not isinstance(n, (ast.Assign, ast.AugAssign)):
+                    continue
+                tx = norm_text(n.targets[0] if isinstance(n, ast.Assign) else n.target)
+                if not (tx == 'self.transform' or tx.startswith('self.transform[')):
+                    continue
+                if not _followed_by(m.node, n, lambda x: any(is_store(y) for y in ast.walk(x))
+                                    and not isinstance(x, (ast.If, ast.For, ast.While))) \
+                        and bad is None:
+                    bad = '%s changes self.transform without refreshing it' % mname
+        if is_lazy and bad is None:
+            # the reader fills the cache before using it
+            g_m, g_if, g_v = lazy[attr]
+            for mname, m in em.methods.items():
+                reads = [n for n in ast.walk(m.node) if isinstance(n, ast.Attribute) and
+                         norm_text(n) == 'self.' + attr and isinstance(n.ctx, ast.Load) and
+                         not any(n is y for g in ast.walk(m.node) if isinstance(g, ast.If) and
+                                 norm_text(g.test) == norm_text(g_if.test)
+                                 for y in ast.walk(g.test))]
+                if not reads:
+                    continue
+                guards = [g for g in m.node.body if isinstance(g, ast.If) and
+                          norm_text(g.test) == norm_text(g_if.test) and len(g.body) == 1 and
+                          norm_text(g.body[0]) == norm_text(g_if.body[0])]
+                if not guards or min(r.lineno for r in reads) < guards[0].lineno:
+                    bad = '%s reads it without filling it first (it is None after an update)' \
+                        % mname
         caches[attr] = bad
 
     def ev(e):
